@@ -34,6 +34,8 @@ def tails(p):
 
 XR = lambda p: [t for t in args_real(p, 'R', 6)]
 XC = lambda p: args_complex(p, 'C', 3) + [(R(-3), R(1, 1 << 20)), (R(-3), R(-1, 1 << 20)), (R(-50), R(1, 8))]
+# large modulus with non-trivial mantissas (z^2 does not fit in the working precision): asymptotic branches of erfc
+XC_BIG = lambda p: [(R(80011, 16), R(21, 16)), (R(1975308641, 1 << 14), R(-53, 16)), (R(12345, 1 << 7), R(-7, 4)), (R(40003, 8), R(40001, 8)), (R(3, 1), R(160007, 16))]
 
 
 def a_erf(mp, a, P):
@@ -75,6 +77,8 @@ TABLE = [
     dict(fn='erf', args=one(XC)),
     dict(fn='erfc', args=one(lambda p: XR(p) + switch_points(p) + tails(p))),
     dict(fn='erfc', args=one(XC)),
+    dict(fn='erfc', args=one(XC_BIG), budget=30),
+    dict(fn='erf', args=one(XC_BIG), budget=30),
     dict(fn='erfi', args=one(lambda p: XR(p) + switch_points(p)[:8] + XC(p)[:20])),
     dict(fn='erfinv', args=one(lambda p: [mk(s, (1 << j) - 1, -j) for j in (1, 3, 10, max(4, p - 3)) for s in (0, 1)] + [mk(s, 1, -k) for k in (1, 5, 30, p + 3) for s in (0, 1)] + [R(3, 4), R(-5, 8)]), anchors=[('erf(erfinv x)=x', a_erfinv)]),
     dict(fn='npdf', args=one(lambda p: XR(p)[::2] + [R(40), R(-7, 2)])),
@@ -97,7 +101,9 @@ TABLE = [
     dict(fn='gammainc', args=lambda p: [(s, a, b) for s in (R(5, 2), R(1, 2), R(-1)) for a, b in ((R(1, 2), R(3)), (R(0), R(2)), (R(1), R(10)), (R(3), R(1, 2)))], budget=30),
     dict(fn='gammainc', args=lambda p: [(s, R(0), x) for s in (R(5, 2), R(1, 2), R(20)) for x in (R(1, 4), R(3), R(30))], kw={'regularized': True}, budget=30),
     dict(fn='betainc', args=lambda p: [(a, b, R(0), x) for a in (R(2), R(1, 2), R(7, 2)) for b in (R(3), R(1, 2)) for x in (R(1, 4), R(1, 2), R(7, 8), R(1))] +
-         [(R(2), R(3), R(1, 4), R(3, 4)), (R(1, 2), R(1, 2), R(1, 8), R(7, 8))], budget=30),
+         [(R(2), R(3), R(1, 4), R(3, 4)), (R(1, 2), R(1, 2), R(1, 8), R(7, 8))] +
+         # first parameter next to a non-positive integer (cancellation between the two incomplete parts), lower limit != 0
+         [(grid.mk(1, (n << k) + s, -k), b, R(1, 4), R(3, 4)) for n, k, s in ((1, 12, 1), (2, 30, -1), (5, 45, -1), (0, 20, 1), (1, 16, -1)) for b in (R(5, 2), R(3))], budget=30),
     dict(fn='betainc', args=lambda p: [(R(2), R(3), R(0), x) for x in (R(1, 4), R(3, 4))], kw={'regularized': True}),
 ]
 
